@@ -226,6 +226,10 @@ def make_instance(rng, style):
             m["plan"] = 1
         ncuts = rng.choice([2, 2, 3])            # >= 2 different cut-offs: call histories on one object need them
         m["cuts"] = sorted(rng.sample(range(0, m["N"] + 2), ncuts))
+        # explicit lists are given in an order of their own (1-based abstract indices, as TLC sees them)
+        m["order"] = rng.sample(range(1, m["N"] + 1), m["N"])
+        m["aorder"] = rng.sample(range(1, m["K"] + 1), m["K"])
+        m["aexplicit"] = 1 if (explicit and rng.random() < 0.7) else 0
         return m
 
 
@@ -245,7 +249,7 @@ def make_cases(rng, n):
                "dist": rng.choice(["dict", "det", "uniform"]),
                "base": rng.choice(["subclass", "quick"]),
                "extra": rng.choice(["wrap", "wrap_obj", "quickmdp", "matrices"]),
-               "explicit_actions": 1 if (m["explicit"] and rng.random() < 0.7) else 0,
+               "explicit_actions": m["aexplicit"],
                "seed": rng.randrange(1 << 30)}
         if rep["labels"] == "collide":
             rep["alabels"] = "int"          # the components of the colliding tuples are real state / action labels
@@ -400,13 +404,9 @@ def functions(m, L, rep):
 
 def set_lists(mdp, m, L, rep):
     if m["explicit"]:
-        order = list(L.s)
-        random.Random(rep["seed"] + 1).shuffle(order)
-        mdp._state_list = order
-    if rep.get("explicit_actions"):
-        order = list(L.a)
-        random.Random(rep["seed"] + 2).shuffle(order)
-        mdp._action_list = tuple(order)
+        mdp._state_list = [L.s[i - 1] for i in m["order"]]
+    if m["aexplicit"]:
+        mdp._action_list = tuple(L.a[i - 1] for i in m["aorder"])
 
 
 def build(m, rep, kind, const=None):
@@ -468,8 +468,8 @@ def build(m, rep, kind, const=None):
         mdp = QuickTabularMDP(**kw)
     elif kind == "matrices":
         N, K = m["N"], m["K"]
-        listed = list(range(N)) if m["explicit"] else sorted(gen.reach(m))
-        random.Random(rep["seed"] + 3).shuffle(listed)
+        keep = set(range(N)) if m["explicit"] else gen.reach(m)
+        listed = [i - 1 for i in m["order"] if i - 1 in keep]      # the list handed to from_matrices, in this order
         pos = {s: i for i, s in enumerate(listed)}
         n = len(listed)
         tf, rf, am = np.zeros((n, K, n)), np.zeros((n, K, n)), np.zeros((n, K))
@@ -910,7 +910,7 @@ class Judge:
                     self.fail(site, "reward", f"reward({s},{a},.) = {r} != {er}", name)
 
     # ---- lists and arrays of a tabular object
-    def tabular(self, name, o, site, *, explicit, listed_expected=None):
+    def tabular(self, name, o, site, *, explicit, listed_expected=None, given_order=None, given_actions=None):
         """Returns True when every compared cell was equal."""
         m, ctx = self.m, self.ctx
         before = self.ok
@@ -939,6 +939,13 @@ class Judge:
             else:
                 shape = "reachable-state-missing" if not explicit else "not-the-given-list"
             self.fail(j(site, "state_list"), shape, f"state list {sorted(sl)} but expected {sorted(want)}", name)
+        # an explicitly given list IS the list, in the order given (arrays are indexed by position)
+        if given_order is not None and set(sl) == want and sl != given_order:
+            self.fail(j(site, "state_list"), "explicit-list-order",
+                      f"state list {sl} is not the explicitly given list {given_order} (same states, other order)", name)
+        if given_actions is not None and set(al) == set(given_actions) and al != given_actions:
+            self.fail(j(site, "action_list"), "explicit-list-order",
+                      f"action list {al} is not the explicitly given list {given_actions} (same actions, other order)", name)
         used = {a for s in sl for a in range(self.K) if self.A[s][a]}
         if not used <= set(al):
             self.fail(j(site, "action_list"), "available-action-missing", f"action list {al} lacks actions of {sorted(used)}", name)
@@ -1085,7 +1092,8 @@ def judge_one(ctx, i, c, rec, cuts, objs):
             J.functional(name, o, site)
         elif kind == "roundtrip":
             base = objs["base"]
-            J.tabular(name, o, site, explicit=True, listed_expected=set(base.get("sl", [])))
+            J.tabular(name, o, site, explicit=True, listed_expected=set(base.get("sl", [])),
+                      given_order=base.get("sl"), given_actions=base.get("al"))
             if o.get("same_lists") is False:
                 J.fail("from_matrices", "lists-differ", "state / action list of the rebuilt MDP differ from the original's", name)
             for aname, same in o.get("same_arrays", {}).items():
@@ -1096,9 +1104,14 @@ def judge_one(ctx, i, c, rec, cuts, objs):
             if m["plan"]:
                 J.planning(name, o, site, other=base)
         elif kind == "matrices":
-            J.tabular(name, o, site, explicit=True, listed_expected=(set(range(m["N"])) if explicit else J.reach))
+            keep = set(range(m["N"])) if explicit else J.reach
+            J.tabular(name, o, site, explicit=True, listed_expected=keep,
+                      given_order=[i - 1 for i in m["order"] if i - 1 in keep], given_actions=list(range(m["K"])))
         else:
-            J.tabular(name, o, site, explicit=explicit)
+            # the spec's lists: lst is the given order when explicit; alst the given action order when aexplicit
+            J.tabular(name, o, site, explicit=explicit,
+                      given_order=[x - 1 for x in rec["lst"]] if explicit else None,
+                      given_actions=[x - 1 for x in rec["alst"]] if m["aexplicit"] else None)
             if m["plan"]:
                 J.planning(name, o, site)
         if J.ok:
